@@ -8,7 +8,7 @@ PLANS = {
     "C05": {"twin": ["TwinBlocks", "TwinTaus"], "single": []},
     "C10": {"twin": ["TwinFull"], "single": []},
     "C11": {"twin": ["TwinChan", "TwinCtl"], "single": ["C11_MaskUntouched", "C03_CallOk"]},
-    "C16": {"twin": ["TwinFull"], "single": ["C16_Flush"]},
+    "C16": {"twin": ["TwinFull"], "single": ["C16_Flush", "C16_VecForward"]},
     "C17": {"twin": ["TwinCtl", "TwinNear"], "single": []},
     "C18": {"twin": ["TwinFull"], "single": []},
 }
@@ -49,7 +49,7 @@ def suffix_ops(rng, n, count, allow=("ratio", "ramp", "chunk")):
 # ------------------------------------------------------------------------------------------------
 def c10_scripts(rng, tier, model_prefixes):
     S = []
-    n_gen = {"quick": 10, "thorough": 150}[tier]
+    n_gen = {"quick": 80, "thorough": 400}[tier]
     for _ in range(n_gen):
         for kind in gen.KINDS:
             pre = gen.bad_history(rng, kind, rng.randrange(1, 14), small=rng.random() < 0.4)
@@ -98,7 +98,7 @@ def c10_scripts(rng, tier, model_prefixes):
 
 def c16_scripts(rng, tier, model_prefixes):
     S = []
-    n_gen = {"quick": 12, "thorough": 160}[tier]
+    n_gen = {"quick": 25, "thorough": 200}[tier]
 
     def wrap_pair(mask, ch):
         u = rng.random()
@@ -134,8 +134,13 @@ def c16_scripts(rng, tier, model_prefixes):
             if rng.random() < 0.2:
                 for o in suffix_ops(rng, n, 1, allow=("ratio", "ramp", "chunk")):
                     if o["op"] != "process":
-                        ops += [with_id(o, 0), with_id(o, 1)]
+                        oa = dict(o)
+                        if o["op"] == "set_ratio" and rng.random() < 0.6:
+                            oa["via"] = "vec"          # through the VecResampler wrapper
+                        ops += [with_id(oa, 0), with_id(o, 1)]
                 continue
+            if rng.random() < 0.15:
+                ops += [{"op": "getters", "id": 0}, {"op": "getters", "id": 1}]
             a, b = wrap_pair(mask, n["ch"])
             ops += [with_id(a, 0), with_id(b, 1)]
         return ops
@@ -185,7 +190,7 @@ def near_bound(n):
 
 def c17_scripts(rng, tier, model_prefixes):
     S = []
-    n_gen = {"quick": 12, "thorough": 160}[tier]
+    n_gen = {"quick": 80, "thorough": 400}[tier]
     for _ in range(n_gen):
         for kind in gen.KINDS:
             h = gen.valid_history(rng, kind, rng.randrange(6, 30), small=rng.random() < 0.3,
@@ -217,7 +222,7 @@ def c17_scripts(rng, tier, model_prefixes):
 
 def c11_scripts(rng, tier, model_prefixes):
     S = []
-    n_gen = {"quick": 10, "thorough": 120}[tier]
+    n_gen = {"quick": 70, "thorough": 400}[tier]
 
     def build(n, nch, mask, common):
         A = dict(n); A["ch"] = nch
@@ -349,7 +354,7 @@ def c18_scripts(rng, tier, schedules):
     # hidden process-wide / per-thread state: a reference run, then an unrelated resampler of another
     # family is constructed and used on the same thread, then the twin run. Signals fade through the
     # subnormal range to zero (floating-point environment, denormal handling), both sample types.
-    for _ in range({"quick": 16, "thorough": 200}[tier]):
+    for _ in range({"quick": 80, "thorough": 600}[tier]):
         kind = rng.choice(kinds)
         other = rng.choice([k for k in kinds if k[:3] != kind[:3]] + ["SincFixedIn", "SincFixedOut"])
         h = gen.valid_history(rng, kind, 1, small=False, allow=())
@@ -383,7 +388,7 @@ def c18_scripts(rng, tier, schedules):
             ops.append(c2)
         S.append(ops)
     # free running: many threads x instances, everything concurrent
-    for _ in range({"quick": 6, "thorough": 60}[tier]):
+    for _ in range({"quick": 30, "thorough": 200}[tier]):
         kind = rng.choice(kinds)
         h = gen.valid_history(rng, kind, 10, small=rng.random() < 0.5, allow=("ratio", "ramp", "chunk", "reset"))
         n = calm(h[0])
@@ -407,7 +412,7 @@ def c18_scripts(rng, tier, schedules):
 
 def c05_scripts(rng, tier):
     S = []
-    n_gen = {"quick": 12, "thorough": 150}[tier]
+    n_gen = {"quick": 40, "thorough": 300}[tier]
     # ---- FFT: every adapter and every (chunk, sub) pair that resolves to the same block size
     for _ in range(n_gen):
         a, b = rng.choice([(1, 2), (2, 1), (3, 2), (2, 3), (147, 160), (160, 147), (1, 1), (4, 1), (3, 7),
@@ -479,15 +484,8 @@ def model_prefixes(prop, tier, wd, rng, cov):
                                   "generated": res["generated"], "ok": res["ok"]})
         if not res["ok"]:
             raise run.ToolError("model %s/%s fails on its own: %s" % (module, tag, res["error"]))
-        pe = dict(params)
-        demit = None
-        if module == "FftBlocks":
-            pe["depth"] = 3 if tier == "quick" else 5
-        else:
-            demit = 3 if tier == "quick" else 4
-        res2 = model.check_model(module, props.cfg_text(module, pe, True, demit), wd, "%s-%s-emit" % (prop, tag),
-                                 workers=1, timeout=3000)
-        reps = model.maximal(res2["replays"], limit={"quick": 120, "thorough": 2000}[tier], rng=rng)
+        reps = props.emit_behaviours(module, tag, params, tier, rng.randrange(1 << 30), wd, prop, rng,
+                                     quick_n=150, thorough_n=2000)
         for h in reps:
             ops, exp = conv(h)
             # rejected calls of the model alphabet are kept: they must not matter
@@ -497,7 +495,7 @@ def model_prefixes(prop, tier, wd, rng, cov):
 
 
 def fleet_schedules(tier, wd, rng, cov):
-    cfgs = [(2, 2, 2)] if tier == "quick" else [(2, 2, 3), (3, 2, 2), (2, 3, 2), (3, 3, 2)]
+    cfgs = [(2, 2, 2), (3, 2, 2)] if tier == "quick" else [(2, 2, 3), (3, 2, 2), (2, 3, 2), (3, 3, 2)]
     scheds = []
     for (N, M, K) in cfgs:
         cfg = ("SPECIFICATION Spec\nCONSTANTS\n  N = %d\n  M = %d\n  K = %d\n  Emit = TRUE\n"
@@ -511,7 +509,7 @@ def fleet_schedules(tier, wd, rng, cov):
                                   "distinct": res["distinct"], "generated": res["generated"], "ok": True,
                                   "schedules": len(res["replays"])})
         scheds += res["replays"]
-    lim = {"quick": 250, "thorough": 5000}[tier]
+    lim = {"quick": 700, "thorough": 6000}[tier]
     if len(scheds) > lim:
         scheds = rng.sample(scheds, lim)
     return scheds
